@@ -31,19 +31,27 @@ type 'k ops = {
   mem_lookup : ('k * BinNums.coq_Z) list -> 'k -> BinNums.coq_Z option;
   mem_all : ('k * BinNums.coq_Z) list -> ('k * BinNums.coq_Z) list;
   tree_ok : ('k, BinNums.coq_Z) KeyTree.node -> bool;
+  g_lookup : ('k, BinNums.coq_Z) KeyGraph.gnode option list -> Datatypes.nat -> 'k -> BinNums.coq_Z option Res.res * Datatypes.nat;
+  g_all : ('k, BinNums.coq_Z) KeyGraph.gnode option list -> Datatypes.nat -> ('k * BinNums.coq_Z) list * Datatypes.nat;
+  g_extract : ('k, BinNums.coq_Z) KeyGraph.gnode option list -> Datatypes.nat -> ('k * BinNums.coq_Z) list;
+  g_size : ('k, BinNums.coq_Z) KeyGraph.gnode option list -> Datatypes.nat;
 }
 
 let name_ops = {
   key = bytes_of_hex; tok = hex_of_bytes;
   write = KeyTreeInst.name_write; lookup = KeyTreeInst.name_lookup; all = KeyTreeInst.name_all;
   extract = KeyTreeInst.name_extract; mem_lookup = KeyTreeInst.name_mem_lookup;
-  mem_all = KeyTreeInst.name_mem_all; tree_ok = KeyTreeInst.name_tree_ok }
+  mem_all = KeyTreeInst.name_mem_all; tree_ok = KeyTreeInst.name_tree_ok;
+  g_lookup = KeyGraphInst.name_g_lookup; g_all = KeyGraphInst.name_g_all; g_extract = KeyGraphInst.name_g_extract;
+  g_size = KeyGraphInst.name_heap_size }
 
 let num_ops = {
   key = z_of_string; tok = string_of_z;
   write = KeyTreeInst.num_write; lookup = KeyTreeInst.num_lookup; all = KeyTreeInst.num_all;
   extract = KeyTreeInst.num_extract; mem_lookup = KeyTreeInst.num_mem_lookup;
-  mem_all = KeyTreeInst.num_mem_all; tree_ok = KeyTreeInst.num_tree_ok }
+  mem_all = KeyTreeInst.num_mem_all; tree_ok = KeyTreeInst.num_tree_ok;
+  g_lookup = KeyGraphInst.num_g_lookup; g_all = KeyGraphInst.num_g_all; g_extract = KeyGraphInst.num_g_extract;
+  g_size = KeyGraphInst.num_heap_size }
 
 (* token cursor *)
 let toks = ref [||]
@@ -101,6 +109,39 @@ let run ops id op =
     let t = parse_tree ops in
     let ps = probes ops in
     report ops id "raw" t ps (op = "R")
+  | "G" ->
+    (* <nn> (X | L <lim> <n> (<k> <v>)^n | I <lim> <n> <ref>^n)^nn <root> <m> <probes> *)
+    let nn = int_of_string (next ()) in
+    let read_lim () = match next () with
+      | "n" -> None
+      | "l" -> let lo = ops.key (next ()) in let hi = ops.key (next ()) in Some (lo, hi)
+      | _ -> failwith "bad lim" in
+    let rec nodes i acc = if i = 0 then Stdlib.List.rev acc else
+        let nd = (match next () with
+          | "X" -> None
+          | "L" -> let lim = read_lim () in let n = int_of_string (next ()) in
+            let rec go i acc = if i = 0 then Stdlib.List.rev acc else
+                let k = ops.key (next ()) in let v = z_of_string (next ()) in go (i - 1) ((k, v) :: acc) in
+            Some (KeyGraph.GLeaf (lim, go n []))
+          | "I" -> let lim = read_lim () in let n = int_of_string (next ()) in
+            let rec go i acc = if i = 0 then Stdlib.List.rev acc else
+                let r = nat_of_int (int_of_string (next ())) in go (i - 1) (r :: acc) in
+            Some (KeyGraph.GInner (lim, go n []))
+          | _ -> failwith "bad gnode") in
+        nodes (i - 1) (nd :: acc) in
+    let h = nodes nn [] in
+    let root = nat_of_int (int_of_string (next ())) in
+    let ps = probes ops in
+    let (al, wa) = ops.g_all h root in
+    let works = ref (int_of_nat wa) in
+    let look = Stdlib.String.concat "," (Stdlib.List.map (fun k ->
+        let (r, w) = ops.g_lookup h root k in works := max !works (int_of_nat w); show_res r) ps) in
+    let d = ops.g_extract h root in
+    let ml = Stdlib.String.concat "," (Stdlib.List.map (fun k -> show_opt (ops.mem_lookup d k)) ps) in
+    (* the bound of Prop_C17.graph_work_bound, evaluated on this very graph *)
+    let bounded = !works <= 2 * int_of_nat (ops.g_size h) in
+    Printf.printf "%s graph size=%d enum=%d look=%s mem=%d memlook=%s bounded=%s\n" id (Stdlib.List.length al)
+      (enum_hash ops.tok al) look (enum_hash ops.tok (ops.mem_all d)) ml (string_of_bool bounded)
   | _ -> Printf.printf "%s badcase\n" id
 
 let () =
